@@ -106,11 +106,11 @@ def _wrapper(tree, name, callee, oper):
 
 PRELUDE = '''From Coq Require Import List Arith Lia PeanoNat ZArith.
 Import ListNotations.
-From PV Require Import Model.Cumops.
+From PV Require Import Model.Cumops Proofs.Cumops Proofs.Cumops2 Props.C12.
 (* int.bit_length() of Python *)
 Definition bit_length (z : Z) : Z := if (z =? 0)%Z then 0%Z else (Z.log2 (Z.abs z) + 1)%Z.
 '''
-PROOFS = '''
+PROOFS = r'''
 Lemma pows_map k : forall s, pows k s = map (fun j => s * 2 ^ j) (seq 0 k).
 Proof.
   induction k as [|k IH]; intros s; cbn [pows seq map]; [reflexivity|].
@@ -150,10 +150,30 @@ Lemma gen_cumprod_eq {A} (mul : A -> A -> A) left v : gen_cumprod mul left v = c
 Proof. unfold gen_cumprod, cumprod_model, flip_op. destruct left; apply gen_cumops_eq. Qed.
 Lemma gen_cummul_eq {A} (mul : A -> A -> A) left v : gen_cummul mul left v = cumprod_model mul left v.
 Proof. unfold gen_cummul, cumprod_model, flip_op. destruct left; apply gen_cumops_eq. Qed.
+(* the property theorems of Props/C12.v, restated for the functions generated from the source text *)
+Theorem gen_cumops_is_fold :
+  forall (A : Type) (op : A -> A -> A), (forall a b c, op (op a b) c = op a (op b c)) ->
+  forall (d : A) (x : list A), 1 <= length x ->
+  exists r, gen_cumops op x = Some r /\ length r = length x /\
+            forall i, i < length x -> nth i r d = prefix A op d x i.
+Proof. intros A op Ha d x Hx. rewrite gen_cumops_eq. exact (C12_cumops_is_fold A op Ha d x Hx). Qed.
+Theorem gen_cumprod_left :
+  forall (A : Type) (mul : A -> A -> A), (forall a b c, mul (mul a b) c = mul a (mul b c)) ->
+  forall (d : A) (x : list A), 1 <= length x ->
+  exists r, gen_cumprod mul true x = Some r /\ length r = length x /\
+            forall i, i < length x -> nth i r d = lprefix A mul d x i.
+Proof. intros A mul Ha d x Hx. rewrite gen_cumprod_eq. exact (C12_cumprod_left A mul Ha d x Hx). Qed.
+Theorem gen_cumprod_right :
+  forall (A : Type) (mul : A -> A -> A), (forall a b c, mul (mul a b) c = mul a (mul b c)) ->
+  forall (d : A) (x : list A), 1 <= length x ->
+  exists r, gen_cumprod mul false x = Some r /\ length r = length x /\
+            forall i, i < length x -> nth i r d = rprefix A mul d x i.
+Proof. intros A mul Ha d x Hx. rewrite gen_cumprod_eq. exact (C12_cumprod_right A mul Ha d x Hx). Qed.
+Print Assumptions gen_cumops_is_fold. Print Assumptions gen_cumprod_left. Print Assumptions gen_cumprod_right.
 Print Assumptions gen_strides_eq. Print Assumptions gen_cumops_eq. Print Assumptions gen_cumprod_inplace_eq.
 Print Assumptions gen_cummul_inplace_eq. Print Assumptions gen_cumprod_eq. Print Assumptions gen_cummul_eq.
 '''
-N_LEMMAS = 6
+N_LEMMAS = 9
 
 
 def translate(repo):
